@@ -322,6 +322,35 @@ func (in *Interp) paramObjs(fd *ast.FuncDecl) (objs []types.Object, nrecv int) {
 	return
 }
 
+// pointerLike: a value of this type can share storage with what a function was handed
+func pointerLike(t types.Type) bool {
+	switch t.Underlying().(type) {
+	case *types.Pointer, *types.Interface, *types.Map, *types.Slice, *types.Signature:
+		return true
+	}
+	return false
+}
+
+// calleeOf: the declaration inside the package that a call expression calls, and its receiver expression
+func (in *Interp) calleeOf(x *ast.CallExpr) (*ast.FuncDecl, ast.Expr) {
+	switch f := unparen(x.Fun).(type) {
+	case *ast.Ident:
+		if fo, ok := in.info.Uses[f].(*types.Func); ok {
+			return in.decls[fo.Origin()], nil
+		}
+	case *ast.SelectorExpr:
+		if sel := in.info.Selections[f]; sel != nil && sel.Kind() == types.MethodVal {
+			if fo, ok := sel.Obj().(*types.Func); ok {
+				if d := in.decls[fo.Origin()]; d != nil {
+					return d, f.X
+				}
+				return in.tuMethods[fo.Name()], f.X
+			}
+		}
+	}
+	return nil, nil
+}
+
 func (in *Interp) computeSummaries() {
 	type fnInfo struct {
 		fd    *ast.FuncDecl
@@ -367,6 +396,29 @@ func (in *Interp) computeSummaries() {
 			case *ast.CallExpr:
 				if tv, ok := in.info.Types[x.Fun]; ok && tv.IsType() && len(x.Args) == 1 {
 					return roots(x.Args[0])
+				}
+				// a function of the package that hands back a pointer-like value may hand back (part of) what it was
+				// given: `o := same(other)`
+				if callee, recvExpr := in.calleeOf(x); callee != nil {
+					if tv, ok := in.info.Types[x]; ok && tv.Type != nil && pointerLike(tv.Type) {
+						r := map[int]bool{}
+						for _, a := range x.Args {
+							for k := range roots(a) {
+								r[k] = true
+							}
+						}
+						if recvExpr != nil {
+							for k := range roots(recvExpr) {
+								r[k] = true
+							}
+						}
+						return r
+					}
+				}
+			case *ast.SelectorExpr:
+				// a method value `x.m` keeps x
+				if sel := in.info.Selections[x]; sel != nil && sel.Kind() == types.MethodVal {
+					return roots(x.X)
 				}
 			}
 			return nil
@@ -467,6 +519,26 @@ func (in *Interp) computeSummaries() {
 					if tv, ok := in.info.Types[x.Fun]; ok && tv.IsType() && len(x.Args) == 1 {
 						return roots(x.Args[0])
 					}
+					if callee, recvExpr := in.calleeOf(x); callee != nil {
+						if tv, ok := in.info.Types[x]; ok && tv.Type != nil && pointerLike(tv.Type) {
+							r := map[int]bool{}
+							for _, a := range x.Args {
+								for k := range roots(a) {
+									r[k] = true
+								}
+							}
+							if recvExpr != nil {
+								for k := range roots(recvExpr) {
+									r[k] = true
+								}
+							}
+							return r
+						}
+					}
+				case *ast.SelectorExpr:
+					if sel := in.info.Selections[x]; sel != nil && sel.Kind() == types.MethodVal {
+						return roots(x.X)
+					}
 				}
 				return nil
 			}
@@ -500,6 +572,27 @@ func (in *Interp) computeSummaries() {
 					lvalue(x.X)
 				case *ast.IndexExpr:
 					mark(roots(x.X), false)
+				case *ast.SelectorExpr:
+					// a method value `x.m` (handed on as a function value): whoever calls it does to x what m does to its
+					// receiver — counted where the value is made
+					if sel := in.info.Selections[x]; sel != nil && sel.Kind() == types.MethodVal {
+						if fo, ok := sel.Obj().(*types.Func); ok {
+							callee := in.decls[fo.Origin()]
+							if callee == nil {
+								callee = in.tuMethods[fo.Name()]
+							}
+							if callee != nil {
+								if cs := in.summaries[callee]; cs != nil && cs.nrecv > 0 && len(cs.read) > 0 {
+									if cs.read[0] {
+										mark(roots(x.X), false)
+									}
+									if cs.write[0] {
+										mark(roots(x.X), true)
+									}
+								}
+							}
+						}
+					}
 				case *ast.RangeStmt:
 					mark(roots(x.X), false)
 				case *ast.ReturnStmt:
